@@ -106,6 +106,8 @@ def struct_name(cfg, spec, which):
 
 
 def feature_text(f):
+    if f.get("raw") is not None:
+        return f["raw"]
     ps = f.get("params", [])
     if not ps and not f.get("parens"):
         return f["f"]
@@ -113,6 +115,8 @@ def feature_text(f):
     for k, v in ps:
         if v is None:
             parts.append(k)
+        elif isinstance(v, dict):                   # raw token text for the value (C13)
+            parts.append("%s = %s" % (k, v["raw"]))
         else:
             parts.append("%s = %s" % (k, rust_str_lit(v)))
     return "%s(%s)" % (f["f"], ", ".join(parts))
@@ -130,6 +134,8 @@ def config_attr_texts(cfg):
         i += g
         out.append((p, "#[enum_tools(%s)]" % ", ".join(feature_text(f) for f in chunk)))
     assert i == len(feats), "groups must cover feats"
+    for p, t in cfg.get("raw_attrs", []):
+        out.append((p, t))
     return out
 
 
@@ -168,13 +174,22 @@ def enum_item_text(spec, cfg, derive_path="EnumTools", with_tools=True, extra_de
             lines.append("    " + t)
     for a in spec.get("enum_attrs_pre", []):
         lines.append("    " + a)
-    lines.append("    #[repr(%s)]" % spec["repr"])
+    if spec.get("repr_lines") is not None:          # C12: explicit (possibly invalid) repr attributes
+        for rl in spec["repr_lines"]:
+            lines.append("    " + rl)
+    elif spec.get("repr_via_cfg_attr"):
+        lines.append("    #[cfg_attr(all(), repr(%s))]" % spec["repr"])
+    else:
+        lines.append("    #[repr(%s)]" % spec["repr"])
     for a in spec.get("enum_attrs", []):
         lines.append("    " + a)
     for p, t in attrs:
         if p != "pre":
             lines.append("    " + t)
     vis = spec.get("vis", "pub")
+    if spec.get("item_override") is not None:       # C12: struct / union instead of an enum
+        lines.append("    %s%s" % (vis + " " if vis else "", spec["item_override"]))
+        return "\n".join(lines)
     lines.append("    %senum %s {" % (vis + " " if vis else "", ident))
     for v in spec["variants"]:
         if with_tools:
